@@ -23,6 +23,7 @@ def codeOfName : String → Option Nat
   | "ESLEMAX" => some ESLEMAX | "ESOVRLP" => some ESOVRLP | "ESEMPTY" => some ESEMPTY | "ESNOSPC" => some ESNOSPC
   | "ESUNTERM" => some ESUNTERM | "ESNODIFF" => some ESNODIFF | "ESNOTFND" => some ESNOTFND | "ESLEWRNG" => some ESLEWRNG
   | "EOVERFLOW" => some EOVERFLOW | "EINVAL" => some EINVAL | "EILSEQ" => some EILSEQ | "0" => some 0
+  | "-1" => some (2^32 - 1)     -- an `int` / `errno_t` of -1 as the models hand it back (`NEG1`)
   | _ => none
 
 /-- the codes the CURRENT doc comment of `fn` lists (`@retval` lines, regenerated from /repo/src on every run) -/
